@@ -586,9 +586,9 @@ std::string
 gen_c07()
 {
 	std::ostringstream t;
-	int mode = *pbt::welem<int>({{3, 0}, {2, 1}, {2, 2}});
+	int mode = *pbt::welem<int>({{3, 0}, {2, 1}, {2, 2}, {1, 3}});
 	int w    = *pbt::welem<int>({{3, 0}, {1, 1}});
-	t << "cfg " << *pbt::range<int>(1, 1000000) << " " << mode << " " << *gen::element(10, 30, 60) << " " << *pbt::range<int>(1, 3) << " 600 0\n";
+	t << "cfg " << *pbt::range<int>(1, 1000000) << " " << mode << " " << (mode == 3 ? *gen::element(5, 20, 50) : *gen::element(10, 30, 60)) << " " << *pbt::range<int>(1, 3) << " " << (mode == 3 ? *gen::element(60, 150, 400) : 600) << " 0\n";
 	t << "world " << w << "\n";
 	if (*pbt::welem<int>({{1, 0}, {6, 1}}))
 		t << "attach 0\n";
